@@ -107,8 +107,8 @@ package boltz
 //@   pure
 // the row comparator: one symbol comparator per sort field, in order and in the field's direction, then the id ascending,
 // so that rows equal on every sort field are still ordered (and none is dropped as a duplicate)
-//@ ghost cmpFwd : (Array Int Bool)
-//@ ghost cmpSym : (Array Int Int)
+//@ ghost cmpFwd : (Array Int Bool) dispatch
+//@ ghost cmpSym : (Array Int Int) dispatch
 //@ view cmpFwd[*stringSymbolComparator] = self.forward
 //@ view cmpFwd[*int64SymbolComparator] = self.forward
 //@ view cmpFwd[*float64SymbolComparator] = self.forward
